@@ -35,7 +35,7 @@ def generator_sets(tier):
     waiters = (script_from_yields((0.5, None)), script_from_yields((2,)),
                script_from_yields((1, None)))
     if tier == 'quick':
-        for name in ('kill-self-return', 'kill-start-other'):
+        for name in ('kill-self-return', 'kill-other', 'kill-start-other'):
             sets[name] = (g1, script_from_yields((None, 1)), variants[name])
         sets['three-waiters'] = waiters
         return sets
